@@ -80,7 +80,9 @@ DIR* sim_opendir(const char* path) {
   while ((e = readdir(d)) != nullptr) sd->ents.push_back(*e);
   closedir(d);
   std::sort(sd->ents.begin(), sd->ents.end(), [](const dirent& a, const dirent& b) { return strcmp(a.d_name, b.d_name) < 0; });
-  uint64_t s = g_cap.dir_seed; for (const char* p = path; *p; p++) s = sim_mix64(s ^ (unsigned char) *p);
+  // the order depends on the run seed and on the directory's position inside the tree, not on where the tree lives
+  const char* rel = strstr(path, "/cli/tree"); rel = rel ? rel + 9 : path;
+  uint64_t s = g_cap.dir_seed; for (const char* p = rel; *p; p++) s = sim_mix64(s ^ (unsigned char) *p);
   Rng rng(s);
   for (size_t i = sd->ents.size(); i > 1; i--) std::swap(sd->ents[i - 1], sd->ents[rng.below(i)]);
   sched_yield(YK_DIR, nullptr);
